@@ -59,6 +59,13 @@ SLOTS = {
     "ge_elt": "({0} for x in y)", "ge_iter": "(x for x in {0})", "ge_if": "(x for x in y if {0})",
     "ge_call": "f({0} for x in y)", "ge_call_iter": "f(x for x in {0})", "ge_call2": "f(({0} for x in y), a)",
     "comp_tuple_target": "[a for x, z in {0}]",
+    # asynchronous clauses (parse-level only; the unparser must keep every keyword in place)
+    "alc_iter": "[x async for x in {0}]", "alc_elt": "[{0} async for x in y]",
+    "alc_second_async": "[x for x in y async for z in {0}]", "alc_both_async": "[x async for x in y async for z in {0}]",
+    "alc_first_async_only": "[x async for x in {0} for z in w]", "alc_if": "[x async for x in y if {0}]",
+    "adc_iter": "{{a: b async for x in {0}}}", "asc_iter": "{{x async for x in {0}}}",
+    "age_iter": "(x async for x in {0})", "age_call": "f(x async for x in {0})",
+    "alc_three": "[x for x in y async for z in w for u in {0}]",
     # walrus / await / yield
     "walrus": "(w := {0})", "await": "await {0}", "yield": "yield {0}", "yield_from": "yield from {0}",
     # f-strings
@@ -156,6 +163,8 @@ MULTI = [
     "[{0} for x in {1}]", "[{0} for x in {1} if {2}]", "{{{0}: {1} for x in {2}}}",
     "({0} for x in {1})", "f({0} for x in {1})", "{{{0} for x in {1} for y in {2}}}",
     "(w := {0})", "await {0}", "yield {0}", "yield from {0}",
+    "[{0} async for x in {1}]", "[{0} for x in {1} async for y in {2}]", "{{{0}: {1} async for x in {2}}}",
+    "({0} async for x in {1} if {2})",
     "-{0}", "+{0}", "~{0}", "not {0}",
     "f'{{{0}}}'", "f'{{{0}!r}}'", "f'{{{0}:{{{1}}}}}'", "f'a{{{0}:>{{{1}}}}}b{{{2}!s}}'",
 ]
